@@ -90,7 +90,7 @@ def run(repo, res):
         res.check('C11-R2', '%s uses declared_at at %s' % (rel.split('/')[-1], unparse(p)[:40]), ok, rel, nd.lineno,
                   'a reported position must be the stored declared_at itself (%s in `%s`)' % (why, unparse(p)),
                   nontrivial=False)
-    res.count('declared_at_uses', len(uses), floor=4)
+    res.count('declared_at_uses', len(uses), floor=2)
     lint = repo.module_func(LINTER, 'lint')
     ok = False
     for nd in ast.walk(lint):
@@ -101,7 +101,8 @@ def run(repo, res):
     res.check('C11-R2', 'lint warning fields', ok, LINTER, lint.lineno,
               'an unused-name report must carry the binding\'s own name and its declared_at line and column')
     loc = repo.module_func(ASSIST, 'location')
-    pairs = [c for c in ast.walk(loc) if isinstance(c, ast.Call) and unparse(c.func) == '_loc']
+    # the pairing may live in location itself or in a module-level helper it calls
+    pairs = [c for c in ast.walk(repo.tree(ASSIST)) if isinstance(c, ast.Call) and unparse(c.func) == '_loc']
     ok = bool(pairs)
     for c in pairs:
         a, b = unparse(c.args[0]), unparse(c.args[1])
